@@ -1189,8 +1189,8 @@ def _oauth_signature(
     )
     base_string = "&".join(_oauth_escape(e) for e in base_elems)
 
-    key_elems = [escape.utf8(consumer_token["secret"])]
-    key_elems.append(escape.utf8(token["secret"] if token else ""))
+    key_elems = [escape.utf8(_oauth_escape(consumer_token["secret"]))]
+    key_elems.append(escape.utf8(_oauth_escape(token["secret"]) if token else ""))
     key = b"&".join(key_elems)
 
     hash = hmac.new(key, escape.utf8(base_string), hashlib.sha1)
